@@ -102,6 +102,9 @@ pub struct Prep {
     pub r_amt: u64,
     pub big_borrow: u64,
     pub small_borrow: u64,
+    /// the liquidator's token account for the emissions mint (emissions are switched on for the collateral bank in
+    /// every other world)
+    pub em_dest: Pubkey,
     /// a second, unrelated group created by the liquidator, who is its admin and risk admin (group creation is permissionless)
     pub foreign_group: Pubkey,
 }
@@ -116,6 +119,15 @@ fn prepare(c: &BrCase, c10: bool) -> Option<Prep> {
     for bi in [ab, lb] {
         let ix = w.ix_deposit(lender.accts[0], lender.auth, bi, lender.tokens[bi], 1_000_000_000_000_000, None);
         w.vm.exec(&ix).ok()?;
+    }
+    // every other world: lending emissions on the collateral bank, so that U's position earns rewards a third party
+    // could try to claim inside the bracket
+    let emissions_on = c.repay_frac % 2 == 0;
+    let (_mint, funding) = w.ensure_emissions_fixtures();
+    let em_dest = w.emissions_destination(l.auth, 77);
+    if emissions_on {
+        let ix = w.ix_setup_emissions(ab, funding, 2, 1_000_000_000, 1_000_000_000_000);
+        let _ = w.vm.exec(&ix);
     }
     // `collateral` is a dollar value in cents: convert to native units at the current price so that
     // most accounts are worth well over the $5 close-out threshold
@@ -134,6 +146,11 @@ fn prepare(c: &BrCase, c10: bool) -> Option<Prep> {
     w.vm.exec(&ix).ok()?;
     let ix = w.ix_deposit(l.accts[0], l.auth, lb, l.tokens[lb], 1_000_000_000_000, None);
     let _ = w.vm.exec(&ix);
+    if emissions_on {
+        // let some rewards accrue on U's deposit
+        w.vm.advance(40);
+        w.refresh_oracles();
+    }
     let power = {
         let a = read_macct(&w.vm, &u.accts[0])?;
         let h = health(&w.vm, &a, Req::Initial, w.vm.now());
@@ -240,7 +257,7 @@ fn prepare(c: &BrCase, c10: bool) -> Option<Prep> {
         };
         w.vm.exec(&ix).ok()?;
     }
-    Some(Prep { w, u, v, l, w_amt, r_amt, big_borrow: (power.saturating_mul(3)).min(liq / 2).max(amt), small_borrow: (amt / 50).max(1), foreign_group })
+    Some(Prep { w, u, v, l, w_amt, r_amt, em_dest, big_borrow: (power.saturating_mul(3)).min(liq / 2).max(amt), small_borrow: (amt / 50).max(1), foreign_group })
 }
 
 // ------------------------------------------------------------------------------------------
@@ -248,7 +265,7 @@ fn prepare(c: &BrCase, c10: bool) -> Option<Prep> {
 // ------------------------------------------------------------------------------------------
 // a trailing "+" = the same instruction with one extra byte appended to its data (Anchor ignores
 // trailing bytes, so it dispatches identically; validators that compare whole data would not)
-pub const C10_SYMS: &[&str] = &["cb", "sA", "sV", "eA", "eV", "wA", "rA", "bA", "dA", "irW", "kr", "js", "sd", "un", "fsA", "feA", "p:sA", "p:eA", "p:wA", "p:rA", "wBig", "sA+", "sV+", "eA+", "eA0", "sA1", "sA2", "sdF", "edF", "rAllA", "eAx"];
+pub const C10_SYMS: &[&str] = &["cb", "sA", "sV", "eA", "eV", "wA", "rA", "bA", "dA", "irW", "kr", "js", "sd", "un", "fsA", "feA", "p:sA", "p:eA", "p:wA", "p:rA", "wBig", "sA+", "sV+", "eA+", "eA0", "sA1", "sA2", "sdF", "edF", "rAllA", "eAx", "weA", "seA", "phA", "acr"];
 // "feV&A" = end for account V with account U appended as a trailing (ignored) remaining account;
 // "feA0" / "feA1" = a genuine end for U whose observation accounts are missing altogether / lack the borrowed bank
 // (the risk engine cannot be built: the end must fail, never pass unchecked)
@@ -339,6 +356,13 @@ fn build_ix(p: &Prep, sym: &str) -> Instruction {
         "bA" => w.ix_borrow_with(ua, p.l.auth, lb, p.l.tokens[lb], p.small_borrow, risk_u),
         "dA" => w.ix_deposit(ua, if sym == "dA" && p.w_amt % 2 == 0 { p.l.auth } else { p.u.auth }, ab, if p.w_amt % 2 == 0 { p.l.tokens[ab] } else { p.u.tokens[ab] }, 1000, None),
         "irW" => w.ix_init_liq_record(w.users[0].accts[0], p.l.auth),
+        // other instructions of this program a third party can send: claim U's emission rewards into the liquidator's
+        // own token account (signed by the liquidator), the permissionless settle / health pulse / interest crank.
+        // None of them is a withdraw or a repay, so none may appear between start and end.
+        "weA" => w.ix_withdraw_emissions(ua, p.l.auth, ab, p.em_dest),
+        "seA" => w.ix_settle_emissions(ua, ab),
+        "phA" => w.ix_pulse_health(ua),
+        "acr" => w.ix_accrue(ab),
         "kr" => {
             use anchor_lang::Discriminator;
             use kamino_mocks::kamino_lending::client::args as kamino;
